@@ -33,6 +33,12 @@ def run_construct(c):
     vs = vars_from_json(c["vars"])
     arr = pnd.variable_ndarray(np.zeros((1, len(vs)), dtype=np.int64), variables=vs) if vs else None
     d = {k: v for k, v in c["dict"]}
+    # any dict will do, also the standard subclasses (chosen from the data so that a replay passes the same kind)
+    import collections
+    kind = (len(d) + sum(abs(int(v)) for v in d.values() if isinstance(v, (int, np.integer)))) % 7
+    if kind == 1: d = collections.OrderedDict(d)
+    elif kind == 2: d = collections.defaultdict(int, d)
+    elif kind == 3 and all(isinstance(v, (int, np.integer)) for v in d.values()): d = collections.Counter(d)
     default = dfun_callable(c["dfun"]) if c["dfun"] is not None else c["raw_default"]
     if arr is None:
         # an empty variable list is replaced by defaults in the constructor: use an array with 0 columns
@@ -206,6 +212,13 @@ def gen_Ab(rng):
     ix = gen_vars(rng, nr, nr) if rng.random() < 0.5 else []
     if len(ix) != nr:
         ix = []
+    if vs and nc >= 2 and rng.random() < 0.12:
+        # a column variable that looks like the support variable (integer id 0, bounds (1,1)) somewhere else than in front
+        k0 = rng.randrange(1, nc)
+        vs = [v for v in vs]
+        vs[k0] = puan.variable(0, (1, 1))
+        if any(vkey(v) == vkey(vs[k0]) for j, v in enumerate(vs) if j != k0):
+            vs[k0] = puan.variable(0, (1, 1))
     c = {"nr": nr, "nc": nc, "m": m, "vars": [vjson(v) for v in vs], "index": [vjson(v) for v in ix]}
     flat = [x for r in m for x in r]
     if flat and rng.random() < 0.4:
